@@ -40,3 +40,9 @@ func VerifC04DeltaWatchedResources(existing sets.String, request *discovery.Delt
 func VerifC04RequiresResourceNamesModification(url string) bool {
 	return requiresResourceNamesModification(url)
 }
+
+// VerifC04ShouldSetWatchedResources exposes shouldSetWatchedResources (whether pushDeltaXds passes a
+// non-nil newResourceNames to sendDelta for this type).
+func VerifC04ShouldSetWatchedResources(url string) bool {
+	return shouldSetWatchedResources(&model.WatchedResource{TypeUrl: url})
+}
